@@ -59,6 +59,12 @@ package main
 // salt and the stored session alone; the first request is issued after the last step. <store>: notfound | nil,
 // optionally +<warnings>. Result: `pre=<step:outcome,…> <the result of x as for c06.hs> post=<step:outcome,…>`.
 //
+// The exchange in another environment (c06env.go): `c06.env <tag> <delivery> <session> <store…> <18 tokens>` - the
+// server's frames delivered in pieces, the client's session file in different kinds of places.
+//
+// The factoring of pq on its own (c06split.go): `c06.split <tag> <pq>`, `c06.splitraw <tag> <pq>`,
+// `c06.mulmod <tag> <a> <b> <c> <n>` - the real math.SplitPQ against its Lean model.
+//
 // Result line (both sides): outcome, TL bodies of the client's three requests, number of encrypted
 // frames seen before CreateConnection returned, client auth key / salt / encrypted / service mode,
 // every session Store; then the server's view: finished or refused, its auth key, salt and the
@@ -770,6 +776,10 @@ func c06Gen(g *G) {
 		}
 		g.Emit(c.op("honest:random"), "honest", fmt.Sprintf("fingerprints:before=%d,after=%d", len(c.S.ExtraFps), len(c.S.LaterFps)))
 	}
+	// (f) the exchange in other environments: the server's frames delivered in pieces, the session file in other places
+	c06EnvGen(g, next, groups)
+	// (e) the factoring of pq on its own: the real math.SplitPQ against its Lean model (c06split.go)
+	c06PQGen(g)
 }
 
 // c06One: one exchange of the real client (its session storage in the given mode, configured with the key
@@ -806,10 +816,20 @@ func c06ShowSteps(xs []string) string {
 // c06OneHist: the same as c06One, as one step of what the application does with the client object (pre: before it,
 // post: after it; see hsPlan)
 func c06OneHist(c *hsCase, cfg string, pub *rsa.PublicKey, pre, post []string) (*hsRun, string) {
+	return c06OnePlan(c, cfg, &hsPlan{D: &c.D, Pub: pub, Secrets: &c.S, Probe: true, Pre: pre, Post: post}, nil)
+}
+
+// c06OnePlan: the plan run with the client configured by cfg (`<store>[+<warnings>[+<first>]]`); `after`, when given,
+// looks at the finished run before its result line is made (c06.env: what the session file holds).
+func c06OnePlan(c *hsCase, cfg string, p *hsPlan, after func(*hsRun)) (*hsRun, string) {
 	storeMode, warnMode := c06SplitCfg(cfg)
 	hsWarnMode = warnMode
-	run := hsExchangePlan(&hsPlan{StoreMode: storeMode, D: &c.D, Pub: pub, Secrets: &c.S, Probe: true, Pre: pre, Post: post, First: c06CfgFirst(cfg)})
+	p.StoreMode, p.First = storeMode, c06CfgFirst(cfg)
+	run := hsExchangePlan(p)
 	hsWarnMode = ""
+	if after != nil {
+		after(run)
+	}
 	c06LastClock = append(c06LastClock, c06ClockVerdict(c, run))
 	// the server reads EVERY encrypted message that reaches it, by the rules of the description (auth_key_id, msg_key,
 	// declared length, 0..15 bytes of padding)
@@ -890,12 +910,22 @@ func c06Exec(op []string) string {
 		return "bad-op"
 	}
 	switch op[0] {
+	case "c06.split", "c06.splitraw", "c06.mulmod":
+		return c06PQExec(op)
 	case "c06.hs":
 		c, ok := c06Parse(op)
 		if !ok {
 			return "bad-op"
 		}
 		run, line := c06One(c, "notfound", &c.S.Key.PublicKey)
+		c06Last = []*hsRun{run}
+		return line
+	case "c06.env":
+		c, ok := c06ParseEnv(op)
+		if !ok {
+			return "bad-op"
+		}
+		run, line := c06OneEnv(c, op[2], op[3], op[4], &c.S.Key.PublicKey)
 		c06Last = []*hsRun{run}
 		return line
 	case "c06.hist":
@@ -928,6 +958,9 @@ func c06Judge(op []string, out string) string {
 	if out == "bad-op" {
 		return ""
 	}
+	if len(op) > 0 && (op[0] == "c06.split" || op[0] == "c06.splitraw" || op[0] == "c06.mulmod") {
+		return c06PQJudge(op, out)
+	}
 	runs := c06Last
 	if len(runs) == 0 {
 		return "no run recorded"
@@ -949,6 +982,13 @@ func c06Judge(op []string, out string) string {
 	if op[0] == "c06.hs" {
 		c, _ := c06Parse(op)
 		return keyNote(c, c06JudgeRun(runs[0], "notfound", clock(0)))
+	}
+	if op[0] == "c06.env" {
+		c, ok := c06ParseEnv(op)
+		if !ok {
+			return "no run recorded"
+		}
+		return keyNote(c, c06JudgeEnv(runs[0], op[2], op[3], op[4], clock(0)))
 	}
 	if op[0] == "c06.hist" {
 		c, pre, post, ok := c06ParseHist(op)
